@@ -11,6 +11,7 @@ structure St where
   nextTok : Nat := 0
   issued : List Nat := []       -- every track id seen in a record so far (ghost, for the freshness oracle)
   handedSeen : List Nat := []   -- ids returned by wasted() so far
+  tieScenes : List Nat := []    -- scenes for which some call had more than one optimal choice
 
 /-! parsing -/
 def dropDet (ts : List String) : Option (Option Int × List String) :=
@@ -198,7 +199,10 @@ def handlePredict (st : St) (args impl : List String) : St × String :=
             | none => false)
           let d := dumpState st.shards st'
           let kDump := d == implDump impl
-          ({ st with st := st', nextTok := tok', issued := (st.issued ++ ids).eraseDups },
+          let ties := gs.filterMap (fun (sc, _, es, _) =>
+            let aes : List AssignX.Entry := es.map (fun x => { q := x.det + 1, t := x.tid, w := x.w })
+            if (AssignX.optimal aes st.cfg.thr).length > 1 then some sc else none)
+          ({ st with st := st', nextTok := tok', issued := (st.issued ++ ids).eraseDups, tieScenes := (st.tieScenes ++ ties).eraseDups },
            res (kRecs && kDump) (oLen && oEcho && oDistinct && oFresh && oEpoch && kDump) flags
              s!"kRecs={kRecs} kDump={kDump} o=[{oLen},{oEcho},{oDistinct},{oFresh},{oEpoch}] model={d}")
     | _ => (st, bad "predict scenes")
@@ -243,12 +247,40 @@ def handleOp (st : St) (op : String) (args impl : List String) : St × String :=
     | none => (st, bad "epoch")
   | _, _ => (st, bad "trk op")
 
-def handle (st : St) (args impl : List String) : St × String :=
+def handle1 (st : St) (args impl : List String) : St × String :=
   if impl.head? == some "NO-TRACKER" then (st, bad "no tracker (case lost its `trk new` line)") else
   match args with
   | "new" :: a => handleNew st a
   | "predict" :: a => handlePredict st a impl
   | op :: a => handleOp st op a impl
   | _ => (st, bad "trk")
+
+/-- several tracker instances side by side (for the hyper-properties C04–C06, C20) -/
+structure Slots where
+  slots : List St := [{}]
+  cur : Nat := 0
+
+def handle (ss : Slots) (args impl : List String) : Slots × String :=
+  match args with
+  | ["sel", k] =>
+    match k.toNat? with
+    | some k =>
+      let slots := if ss.slots.length ≤ k then ss.slots ++ List.replicate (k + 1 - ss.slots.length) {} else ss.slots
+      ({ slots := slots, cur := k }, res true true [] "")
+    | none => (ss, bad "sel")
+  | ["cmp", a, b, sc] =>
+    match a.toNat?, b.toNat?, sc.toNat? with
+    | some a, some b, some sc =>
+      -- the two runs must report the same grouping (up to renaming of ids) unless an exact tie was
+      -- resolved somewhere in one of them (both resolutions are then outcomes of the model)
+      let tie := ((ss.slots.getD a {}).tieScenes.contains sc) || ((ss.slots.getD b {}).tieScenes.contains sc)
+      let same := impl.head? == some "SAME"
+      (ss, res true (same || tie) (["compare-runs"] ++ flag (!same) "runs-differ" ++ flag tie "tie-in-scene" ++
+        flag (same && (impl.getD 1 "0") != "0") "compared-nonempty") s!"same={same} tie={tie}")
+    | _, _, _ => (ss, bad "cmp")
+  | _ =>
+    let st := ss.slots.getD ss.cur {}
+    let (st', r) := handle1 st args impl
+    ({ ss with slots := ss.slots.set ss.cur st' }, r)
 
 end SimVerif.Driver.TrkD
